@@ -13,6 +13,7 @@ open GlueVerif.C18
 #print axioms refresh_none
 #print axioms selection_valid_after_refresh
 #print axioms selection_valid
+#print axioms picker_after_refresh_ok
 #print axioms explicit_none_accepted
 #print axioms combo_history_valid
 #print axioms dcombo_history_valid
